@@ -53,6 +53,7 @@ let parse_uop (t : string list) : uop =
   | ["udp_close"; s] -> UUdpClose (zi s)
   | ["udp_cancel"; s] -> UUdpCancel (zi s)
   | ["udp_destroy"; s] -> UUdpDestroy (zi s)
+  | ["udp_send_bytes"; s; f; a; p; data] -> UUdpSendBytes (zi s, hexbytes data, mk_ep f a p)
   | ["udp_send"; s; f; a; p] -> UUdpSendTo (zi s, pairs_bufs tl, mk_ep f a p)
   | ["udp_recvfrom"; s] -> UUdpRecvFrom (zi s, List.map zi tl)
   | ["udp_arecv"; s; want; h] -> UUdpAsyncRecv (zi s, List.map zi tl, b1 want, zi h)
